@@ -315,7 +315,9 @@ class Table(Vector):
 		"""Return list of available attributes including sanitized column names."""
 		# Use object.__dir__ to get instance attributes, then add column names
 		base_attrs = object.__dir__(self)
-		return set(list(self._build_column_map().keys()) + base_attrs)
+		# (go through the cached map: rebuilding it here without storing it would
+		# clear the columns' renamed flags and leave the cache stale for good)
+		return set(list(self._current_column_map().keys()) + base_attrs)
 	
 	def column_names(self):
 		"""Return list of column names (original names, not sanitized).
